@@ -80,3 +80,9 @@ Proof.
   eexists. split; [apply run_labels_exec; vm_compute; reflexivity|].
   repeat split; reflexivity.
 Qed.
+
+(** A model execution with a panic produces a non-trivial log. *)
+Example log_sb_hyps :
+  (forall r, ssize (cfg2 true flt1) r = 1) /\
+  length (events (cfg2 true flt1) (init (cfg2 true flt1)) (tr_upto_panic ++ [t1; t1; t0; t0; t0; LJoin])) = 18.
+Proof. split; [reflexivity|]. vm_compute. reflexivity. Qed.
